@@ -953,6 +953,7 @@ def parse_module(text):
         if _define_re.match(line):
             name, ret, params, vararg, rest = parse_func_header(line)
             f = Function(name, ret, params, rest)
+            f.vararg = vararg
             # unnamed params get sequential numbers
             cnt = 0
             newp = []
